@@ -135,10 +135,11 @@ class C28(core.Check):
             '_get_native_name on a random directory; hist cases: create/open/list/rename/kill histories with '
             'random letter case through real statements on a sandbox mount (model = same traces as C27). '
             'non-trivial = legal name / successful lookup / at least one successful statement; distinct by hash')
-    PARTIAL = ('the equivalence of the regexp built by dos_name_matches with the proved ?/* matcher is established by '
-               'correspondence and a reference matcher, not by proof; C28_files_lists_openable assumes that no two '
-               'files of a directory share a FILES entry (names differing only in case on a case-sensitive host); '
-               'found-again is proved for data files, the .BAS variant is covered by correspondence and the oracle')
+    PARTIAL = ('dos_name_matches: the regular expression the code builds is modelled (syntax + pattern text, the text '
+               'compared with the argument of re.compile) and PROVED equivalent to the ?/* matcher under the standard '
+               'regexp semantics; that CPython\'s re implements that semantics for these patterns is trusted (and '
+               'tested by correspondence). FILES entries of names containing U+212A / U+1FEF are legal entries that '
+               'do not open the file (C28_kelvin_entry): excluded from C28_entry_legal_iff by cp_clean.')
     histogram = None
 
     def __init__(self, tier, seed):
@@ -291,7 +292,24 @@ class C28(core.Check):
             norm = disk.dos_normalise_name(n)
             out = base.enc_strs([list(t), list(e), list(norm)])
             out.append(int(disk.dos_is_legal_name(n)))
-            out.append(int(disk.dos_name_matches(n, m)))
+            # the text handed to re.compile by dos_name_matches (the `re` name of devices/disk.py is proxied)
+            pats = []
+            real_re = disk.re
+
+            class ReProxy(object):
+                def __getattr__(self, name):
+                    return getattr(real_re, name)
+
+                def compile(self, pattern, *a, **k):
+                    pats.append(bytes(pattern))
+                    return real_re.compile(pattern, *a, **k)
+            disk.re = ReProxy()
+            try:
+                matched = disk.dos_name_matches(n, m)
+            finally:
+                disk.re = real_re
+            out.append(int(matched))
+            out += base.enc_strs([list(x) for x in pats])
             tm, em = disk.dos_splitext(m)
             out.append(int(disk.dos_name_matches(t, tm) and disk.dos_name_matches(e, em)))
             out += base.enc_strs([list(dev._get_dos_name_defext(n, b'BAS')), list(dev._get_dos_name_defext(n, b''))])
@@ -334,7 +352,7 @@ class C28(core.Check):
             return ('(let n := %s in let m := %s in let h := %s in '
                     'let te := dos_splitext n in '
                     'enc_strs [fst te; snd te; dos_normalise_name n] ++ [enc_bool (dos_is_legal_name n); '
-                    'enc_bool (dos_name_matches n m); enc_bool (dos_mask_matches m te)] ++ '
+                    'enc_bool (dos_name_matches n m)] ++ enc_strs [mask_pattern m] ++ [enc_bool (dos_mask_matches m te)] ++ '
                     'enc_strs [defext_name n s_BAS; defext_name n []] ++ enc_strs [display_name h] ++ '
                     'enc_strs (map (fun xy => fst xy ++ 0 :: snd xy) (filter_names [h; [85;80;80;69;82;46;69;88;84]; [108;111;119;101;114;46;101]] m)))'
                     % (n, m, h))
